@@ -1,2 +1,490 @@
-//! w_factory: world helpers (filled in by the properties that need it).
+//! w_factory: the four factories and the eleven minters created THROUGH them, driven
+//! with JSON messages (what a governance proposal / a creator actually sends), so one
+//! code path serves every variant.  No dependency on the repo's test-suite crate.
 #![allow(dead_code, unused_imports)]
+use crate::chain::{self, App};
+use cosmwasm_std::{
+    to_json_vec, Addr, Binary, Coin, ContractResult, CosmosMsg, Empty, Querier, QueryRequest, SystemResult, WasmMsg,
+    WasmQuery,
+};
+use cw_multi_test::{AppResponse, Contract, Executor, SudoMsg, WasmSudo};
+use serde::{Deserialize, Serialize};
+use serde_json::{json, Value};
+
+use crate::util::NATIVE;
+pub const CREATOR: &str = "creator";
+pub const GOV: &str = "governance";
+pub const DEV_ADDRESS: &str = "stars1abcd4kdla12mh86psg4y4h6hh05g2hmqoap350";
+
+#[derive(Clone, Copy, Debug, PartialEq, Eq, PartialOrd, Ord, Serialize, Deserialize)]
+pub enum FactoryKind {
+    Base,
+    Vending,
+    OpenEdition,
+    TokenMerge,
+}
+impl FactoryKind {
+    pub const ALL: [FactoryKind; 4] =
+        [FactoryKind::Base, FactoryKind::Vending, FactoryKind::OpenEdition, FactoryKind::TokenMerge];
+    pub fn name(self) -> &'static str {
+        match self {
+            FactoryKind::Base => "base-factory",
+            FactoryKind::Vending => "vending-factory",
+            FactoryKind::OpenEdition => "open-edition-factory",
+            FactoryKind::TokenMerge => "token-merge-factory",
+        }
+    }
+    pub fn code(self) -> Box<dyn Contract<Empty>> {
+        match self {
+            FactoryKind::Base => chain::base_factory(),
+            FactoryKind::Vending => chain::vending_factory(),
+            FactoryKind::OpenEdition => chain::open_edition_factory(),
+            FactoryKind::TokenMerge => chain::token_merge_factory(),
+        }
+    }
+    /// the minter variants this factory can instantiate
+    pub fn minters(self) -> Vec<MinterKind> {
+        MinterKind::ALL.iter().copied().filter(|m| m.factory() == self).collect()
+    }
+}
+
+/// Order = index into `all_minter_kinds` of coq/model/Status.v.
+#[derive(Clone, Copy, Debug, PartialEq, Eq, PartialOrd, Ord, Serialize, Deserialize)]
+pub enum MinterKind {
+    Base,
+    Vending,
+    VendingFeatured,
+    VendingWlFlex,
+    VendingWlFlexFeatured,
+    VendingMerkleWl,
+    VendingMerkleWlFeatured,
+    OpenEdition,
+    OpenEditionWlFlex,
+    OpenEditionMerkleWl,
+    TokenMerge,
+}
+impl MinterKind {
+    pub const ALL: [MinterKind; 11] = [
+        MinterKind::Base,
+        MinterKind::Vending,
+        MinterKind::VendingFeatured,
+        MinterKind::VendingWlFlex,
+        MinterKind::VendingWlFlexFeatured,
+        MinterKind::VendingMerkleWl,
+        MinterKind::VendingMerkleWlFeatured,
+        MinterKind::OpenEdition,
+        MinterKind::OpenEditionWlFlex,
+        MinterKind::OpenEditionMerkleWl,
+        MinterKind::TokenMerge,
+    ];
+    pub fn index(self) -> u64 {
+        MinterKind::ALL.iter().position(|m| *m == self).unwrap() as u64
+    }
+    pub fn name(self) -> &'static str {
+        match self {
+            MinterKind::Base => "base-minter",
+            MinterKind::Vending => "vending-minter",
+            MinterKind::VendingFeatured => "vending-minter-featured",
+            MinterKind::VendingWlFlex => "vending-minter-wl-flex",
+            MinterKind::VendingWlFlexFeatured => "vending-minter-wl-flex-featured",
+            MinterKind::VendingMerkleWl => "vending-minter-merkle-wl",
+            MinterKind::VendingMerkleWlFeatured => "vending-minter-merkle-wl-featured",
+            MinterKind::OpenEdition => "open-edition-minter",
+            MinterKind::OpenEditionWlFlex => "open-edition-minter-wl-flex",
+            MinterKind::OpenEditionMerkleWl => "open-edition-minter-merkle-wl",
+            MinterKind::TokenMerge => "token-merge-minter",
+        }
+    }
+    pub fn factory(self) -> FactoryKind {
+        match self {
+            MinterKind::Base => FactoryKind::Base,
+            MinterKind::Vending
+            | MinterKind::VendingFeatured
+            | MinterKind::VendingWlFlex
+            | MinterKind::VendingWlFlexFeatured
+            | MinterKind::VendingMerkleWl
+            | MinterKind::VendingMerkleWlFeatured => FactoryKind::Vending,
+            MinterKind::OpenEdition | MinterKind::OpenEditionWlFlex | MinterKind::OpenEditionMerkleWl => {
+                FactoryKind::OpenEdition
+            }
+            MinterKind::TokenMerge => FactoryKind::TokenMerge,
+        }
+    }
+    pub fn code(self) -> Box<dyn Contract<Empty>> {
+        match self {
+            MinterKind::Base => chain::base_minter(),
+            MinterKind::Vending => chain::vending_minter(),
+            MinterKind::VendingFeatured => chain::vending_minter_featured(),
+            MinterKind::VendingWlFlex => chain::vending_minter_wl_flex(),
+            MinterKind::VendingWlFlexFeatured => chain::vending_minter_wl_flex_featured(),
+            MinterKind::VendingMerkleWl => chain::vending_minter_merkle_wl(),
+            MinterKind::VendingMerkleWlFeatured => chain::vending_minter_merkle_wl_featured(),
+            MinterKind::OpenEdition => chain::open_edition_minter(),
+            MinterKind::OpenEditionWlFlex => chain::open_edition_minter_wl_flex(),
+            MinterKind::OpenEditionMerkleWl => chain::open_edition_minter_merkle_wl(),
+            MinterKind::TokenMerge => chain::token_merge_minter(),
+        }
+    }
+}
+
+// ---------------------------------------------------------------- raw JSON plumbing
+
+fn bin(v: &Value) -> Binary {
+    Binary::from(serde_json::to_vec(v).unwrap())
+}
+fn flatten(r: Result<anyhow::Result<AppResponse>, String>) -> Result<AppResponse, String> {
+    match r {
+        Ok(Ok(x)) => Ok(x),
+        Ok(Err(e)) => Err(format!("{:#}", e)),
+        Err(p) => Err(p),
+    }
+}
+
+/// sudo with a JSON message (bytes are sent as they are, so undecodable messages can be sent too)
+pub fn sudo_json(app: &mut App, contract: &Addr, msg: &Value) -> Result<AppResponse, String> {
+    sudo_raw(app, contract, serde_json::to_vec(msg).unwrap())
+}
+pub fn sudo_raw(app: &mut App, contract: &Addr, bytes: Vec<u8>) -> Result<AppResponse, String> {
+    let m = SudoMsg::Wasm(WasmSudo { contract_addr: contract.clone(), message: Binary::from(bytes) });
+    flatten(crate::util::catch(|| app.sudo(m)))
+}
+pub fn exec_json(app: &mut App, sender: &str, contract: &Addr, msg: &Value, funds: &[Coin]) -> Result<AppResponse, String> {
+    let m: CosmosMsg = WasmMsg::Execute { contract_addr: contract.to_string(), msg: bin(msg), funds: funds.to_vec() }.into();
+    flatten(crate::util::catch(|| app.execute(Addr::unchecked(sender), m)))
+}
+pub fn instantiate_json(app: &mut App, code_id: u64, sender: &str, msg: &Value, label: &str) -> Result<Addr, String> {
+    let m: CosmosMsg =
+        WasmMsg::Instantiate { admin: None, code_id, msg: bin(msg), funds: vec![], label: label.to_string() }.into();
+    let res = flatten(crate::util::catch(|| app.execute(Addr::unchecked(sender), m)))?;
+    instantiated_addrs(&res).first().cloned().ok_or_else(|| "no instantiate event".to_string())
+}
+/// smart query answered as JSON (the bytes the contract returned, parsed by serde_json)
+pub fn query_json(app: &App, contract: &Addr, msg: &Value) -> Result<Value, String> {
+    let req: QueryRequest<Empty> = WasmQuery::Smart { contract_addr: contract.to_string(), msg: bin(msg) }.into();
+    let raw = to_json_vec(&req).map_err(|e| e.to_string())?;
+    match crate::util::catch(|| app.raw_query(&raw)) {
+        Ok(SystemResult::Ok(ContractResult::Ok(b))) => serde_json::from_slice(b.as_slice()).map_err(|e| e.to_string()),
+        Ok(SystemResult::Ok(ContractResult::Err(e))) => Err(e),
+        Ok(SystemResult::Err(e)) => Err(e.to_string()),
+        Err(p) => Err(p),
+    }
+}
+/// addresses of the contracts instantiated during a call, in creation order
+pub fn instantiated_addrs(res: &AppResponse) -> Vec<Addr> {
+    let mut out = vec![];
+    for e in res.events.iter().filter(|e| e.ty == "instantiate") {
+        for a in e.attributes.iter().filter(|a| a.key == "_contract_address") {
+            out.push(Addr::unchecked(a.value.clone()));
+        }
+    }
+    out
+}
+/// whole raw storage of a contract
+pub fn storage_dump(app: &App, addr: &Addr) -> Vec<(Vec<u8>, Vec<u8>)> {
+    use cosmwasm_std::Storage;
+    let st = app.contract_storage(addr);
+    st.range(None, None, cosmwasm_std::Order::Ascending).collect()
+}
+
+pub fn jcoin(denom: &str, amount: u128) -> Value {
+    json!({ "denom": denom, "amount": amount.to_string() })
+}
+
+// ---------------------------------------------------------------- parameters
+
+/// Every governance parameter any factory has.  Each factory uses its own subset
+/// (`params_json`); the rest is ignored for that kind.
+#[derive(Clone, Debug, PartialEq, Eq, Serialize, Deserialize)]
+pub struct FParams {
+    pub code_id: u64,
+    pub allowed: Vec<u64>,
+    pub frozen: bool,
+    pub creation_fee: (String, u128),
+    pub min_mint_price: (String, u128),
+    pub mint_fee_bps: u64,
+    pub offset: u64,
+    pub max_token_limit: u32,
+    pub max_per_address_limit: u32,
+    pub airdrop_mint_price: (String, u128),
+    pub airdrop_mint_fee_bps: u64,
+    pub shuffle_fee: (String, u128),
+    pub dev_fee_address: String,
+}
+
+/// The defaults of the repo's own test setup (common_setup/setup_minter/*/mock_params.rs).
+pub fn default_params(kind: FactoryKind, minter_code_id: u64, allowed: &[u64]) -> FParams {
+    let n = |a: u128| (NATIVE.to_string(), a);
+    let mut p = FParams {
+        code_id: minter_code_id,
+        allowed: allowed.to_vec(),
+        frozen: false,
+        creation_fee: n(5_000_000_000),
+        min_mint_price: n(50_000_000),
+        mint_fee_bps: 1_000,
+        offset: 60 * 60 * 24 * 7,
+        max_token_limit: 10_000,
+        max_per_address_limit: 50,
+        airdrop_mint_price: n(0),
+        airdrop_mint_fee_bps: 10_000,
+        shuffle_fee: n(500_000_000),
+        dev_fee_address: DEV_ADDRESS.to_string(),
+    };
+    match kind {
+        FactoryKind::Base => {
+            p.creation_fee = n(1_000_000_000);
+            p.mint_fee_bps = 10_000;
+        }
+        FactoryKind::OpenEdition => {
+            p.min_mint_price = n(100_000_000);
+            p.max_per_address_limit = 10;
+            p.airdrop_mint_fee_bps = 100;
+            p.airdrop_mint_price = n(100_000_000);
+        }
+        _ => {}
+    }
+    p
+}
+
+/// The `params` object of the factory's InstantiateMsg / ParamsResponse.
+pub fn params_json(kind: FactoryKind, p: &FParams) -> Value {
+    let c = |x: &(String, u128)| jcoin(&x.0, x.1);
+    match kind {
+        FactoryKind::Base => json!({
+            "code_id": p.code_id, "allowed_sg721_code_ids": p.allowed, "frozen": p.frozen,
+            "creation_fee": c(&p.creation_fee), "min_mint_price": c(&p.min_mint_price),
+            "mint_fee_bps": p.mint_fee_bps, "max_trading_offset_secs": p.offset, "extension": null }),
+        FactoryKind::Vending => json!({
+            "code_id": p.code_id, "allowed_sg721_code_ids": p.allowed, "frozen": p.frozen,
+            "creation_fee": c(&p.creation_fee), "min_mint_price": c(&p.min_mint_price),
+            "mint_fee_bps": p.mint_fee_bps, "max_trading_offset_secs": p.offset,
+            "extension": { "max_token_limit": p.max_token_limit, "max_per_address_limit": p.max_per_address_limit,
+                "airdrop_mint_price": c(&p.airdrop_mint_price), "airdrop_mint_fee_bps": p.airdrop_mint_fee_bps,
+                "shuffle_fee": c(&p.shuffle_fee) } }),
+        FactoryKind::OpenEdition => json!({
+            "code_id": p.code_id, "allowed_sg721_code_ids": p.allowed, "frozen": p.frozen,
+            "creation_fee": c(&p.creation_fee), "min_mint_price": c(&p.min_mint_price),
+            "mint_fee_bps": p.mint_fee_bps, "max_trading_offset_secs": p.offset,
+            "extension": { "max_token_limit": p.max_token_limit, "max_per_address_limit": p.max_per_address_limit,
+                "airdrop_mint_fee_bps": p.airdrop_mint_fee_bps, "airdrop_mint_price": c(&p.airdrop_mint_price),
+                "dev_fee_address": p.dev_fee_address } }),
+        FactoryKind::TokenMerge => json!({
+            "code_id": p.code_id, "allowed_sg721_code_ids": p.allowed, "frozen": p.frozen,
+            "creation_fee": c(&p.creation_fee), "max_trading_offset_secs": p.offset,
+            "max_token_limit": p.max_token_limit, "max_per_address_limit": p.max_per_address_limit,
+            "airdrop_mint_price": c(&p.airdrop_mint_price), "airdrop_mint_fee_bps": p.airdrop_mint_fee_bps,
+            "shuffle_fee": c(&p.shuffle_fee) }),
+    }
+}
+
+fn rd_coin(v: &Value) -> Option<(String, u128)> {
+    Some((v.get("denom")?.as_str()?.to_string(), v.get("amount")?.as_str()?.parse().ok()?))
+}
+/// Read a ParamsResponse's `params` object back into FParams (fields the kind lacks keep
+/// the value of `like`).  None if a field the kind must have is missing or mistyped.
+pub fn params_from_json(kind: FactoryKind, v: &Value, like: &FParams) -> Option<FParams> {
+    let mut p = like.clone();
+    p.code_id = v.get("code_id")?.as_u64()?;
+    p.allowed = v.get("allowed_sg721_code_ids")?.as_array()?.iter().map(|x| x.as_u64()).collect::<Option<Vec<_>>>()?;
+    p.frozen = v.get("frozen")?.as_bool()?;
+    p.creation_fee = rd_coin(v.get("creation_fee")?)?;
+    p.offset = v.get("max_trading_offset_secs")?.as_u64()?;
+    if kind != FactoryKind::TokenMerge {
+        p.min_mint_price = rd_coin(v.get("min_mint_price")?)?;
+        p.mint_fee_bps = v.get("mint_fee_bps")?.as_u64()?;
+    }
+    let x = match kind {
+        FactoryKind::Base => return Some(p),
+        FactoryKind::TokenMerge => v,
+        _ => v.get("extension")?,
+    };
+    p.max_token_limit = x.get("max_token_limit")?.as_u64()? as u32;
+    p.max_per_address_limit = x.get("max_per_address_limit")?.as_u64()? as u32;
+    p.airdrop_mint_price = rd_coin(x.get("airdrop_mint_price")?)?;
+    p.airdrop_mint_fee_bps = x.get("airdrop_mint_fee_bps")?.as_u64()?;
+    match kind {
+        FactoryKind::OpenEdition => p.dev_fee_address = x.get("dev_fee_address")?.as_str()?.to_string(),
+        _ => p.shuffle_fee = rd_coin(x.get("shuffle_fee")?)?,
+    }
+    Some(p)
+}
+
+// ---------------------------------------------------------------- factories
+
+/// Instantiate a factory with the given parameters (governance is the sender; no funds).
+pub fn instantiate_factory(app: &mut App, kind: FactoryKind, factory_code_id: u64, p: &FParams) -> Result<Addr, String> {
+    instantiate_json(app, factory_code_id, GOV, &json!({ "params": params_json(kind, p) }), kind.name())
+}
+
+/// Store the factory's code and instantiate it with the repo's default parameters.
+/// Returns (factory address, factory code id).
+pub fn instantiate_default_factory(app: &mut App, kind: FactoryKind, minter_code_id: u64, allowed: &[u64]) -> (Addr, u64) {
+    let fc = app.store_code(kind.code());
+    let addr = instantiate_factory(app, kind, fc, &default_params(kind, minter_code_id, allowed)).expect("factory");
+    (addr, fc)
+}
+
+pub fn q_params(app: &App, factory: &Addr) -> Result<Value, String> {
+    query_json(app, factory, &json!({ "params": {} })).and_then(|v| v.get("params").cloned().ok_or("no params".into()))
+}
+pub fn q_allowed_ids(app: &App, factory: &Addr) -> Result<Vec<u64>, String> {
+    let v = query_json(app, factory, &json!({ "allowed_collection_code_ids": {} }))?;
+    v.get("code_ids")
+        .and_then(|a| a.as_array())
+        .and_then(|a| a.iter().map(|x| x.as_u64()).collect::<Option<Vec<_>>>())
+        .ok_or_else(|| format!("bad answer {}", v))
+}
+pub fn q_allowed_id(app: &App, factory: &Addr, id: u64) -> Result<bool, String> {
+    let v = query_json(app, factory, &json!({ "allowed_collection_code_id": id }))?;
+    v.get("allowed").and_then(|b| b.as_bool()).ok_or_else(|| format!("bad answer {}", v))
+}
+
+// ---------------------------------------------------------------- minter creation
+
+/// What a creator asks for.  Fields a factory kind does not have are ignored for it.
+#[derive(Clone, Debug, PartialEq, Eq, Serialize, Deserialize)]
+pub struct CreateReq {
+    /// coins attached to CreateMinter
+    pub funds: Vec<(String, u128)>,
+    pub collection_code_id: u64,
+    /// vending / token-merge: must be Some; open edition: None = unlimited edition
+    pub num_tokens: Option<u32>,
+    pub per_address_limit: u32,
+    pub mint_price: (String, u128),
+    /// seconds from the current block time
+    pub start_in_secs: u64,
+    /// open edition only: sale end, seconds after the start
+    pub end_after_secs: Option<u64>,
+}
+impl CreateReq {
+    /// a request every default factory accepts (pays exactly `fee`)
+    pub fn standard(kind: FactoryKind, collection_code_id: u64, fee: &(String, u128)) -> CreateReq {
+        CreateReq {
+            funds: vec![fee.clone()],
+            collection_code_id,
+            num_tokens: if kind == FactoryKind::OpenEdition { None } else { Some(100) },
+            per_address_limit: 3,
+            mint_price: (NATIVE.to_string(), 100_000_000),
+            start_in_secs: 100,
+            end_after_secs: if kind == FactoryKind::OpenEdition { Some(10_000) } else { None },
+        }
+    }
+}
+
+pub fn collection_params_json(code_id: u64, creator: &str) -> Value {
+    json!({
+        "code_id": code_id, "name": "Collection Name", "symbol": "COL",
+        "info": {
+            "creator": creator, "description": "Stargaze Monkeys",
+            "image": "https://example.com/image.png",
+            "external_link": "https://example.com/external.html",
+            "explicit_content": false, "start_trading_time": null,
+            "royalty_info": { "payment_address": creator, "share": "0.1" }
+        }
+    })
+}
+
+/// The factory's ExecuteMsg::CreateMinter for this kind.
+pub fn create_msg_json(app: &App, kind: FactoryKind, creator: &str, r: &CreateReq) -> Value {
+    let now = chain::now(app);
+    let start = now + r.start_in_secs * 1_000_000_000;
+    let cp = collection_params_json(r.collection_code_id, creator);
+    let init = match kind {
+        FactoryKind::Base => Value::Null,
+        FactoryKind::Vending => json!({
+            "base_token_uri": "ipfs://aldkfjads", "payment_address": null,
+            "start_time": start.to_string(), "num_tokens": r.num_tokens.unwrap_or(0),
+            "mint_price": jcoin(&r.mint_price.0, r.mint_price.1),
+            "per_address_limit": r.per_address_limit, "whitelist": null }),
+        FactoryKind::OpenEdition => json!({
+            "nft_data": { "nft_data_type": "off_chain_metadata", "extension": null,
+                          "token_uri": "ipfs://bafybeiavall5udkxkdtdm4djezoxrmfc6o5fn2ug3ymrlvibvwmwydgrkm/1.jpg" },
+            "start_time": start.to_string(),
+            "end_time": r.end_after_secs.map(|e| (start + e * 1_000_000_000).to_string()),
+            "mint_price": jcoin(&r.mint_price.0, r.mint_price.1),
+            "per_address_limit": r.per_address_limit, "num_tokens": r.num_tokens,
+            "payment_address": null, "whitelist": null }),
+        FactoryKind::TokenMerge => json!({
+            "base_token_uri": "ipfs://aldkfjads", "start_time": start.to_string(),
+            "num_tokens": r.num_tokens.unwrap_or(0),
+            "mint_tokens": [ { "collection": "contract0", "amount": 1 } ],
+            "per_address_limit": r.per_address_limit }),
+    };
+    json!({ "create_minter": { "init_msg": init, "collection_params": cp } })
+}
+
+#[derive(Clone, Debug)]
+pub struct Created {
+    pub minter: Addr,
+    pub collection: Addr,
+}
+
+/// Execute CreateMinter on `factory` as `creator` (who must hold the attached funds).
+/// Which minter variant results is decided by the factory's current `code_id` parameter.
+pub fn create_minter(app: &mut App, kind: FactoryKind, factory: &Addr, creator: &str, r: &CreateReq) -> Result<Created, String> {
+    let msg = create_msg_json(app, kind, creator, r);
+    let funds: Vec<Coin> = r.funds.iter().map(|(d, a)| cosmwasm_std::coin(*a, d.clone())).collect();
+    let res = exec_json(app, creator, factory, &msg, &funds)?;
+    let addrs = instantiated_addrs(&res);
+    if addrs.len() < 2 {
+        return Err(format!("CreateMinter answered Ok but instantiated {} contracts", addrs.len()));
+    }
+    Ok(Created { minter: addrs[0].clone(), collection: addrs[1].clone() })
+}
+
+/// A chain with one factory of the right kind (default parameters) and one minter of the
+/// requested variant created through it with an sg721-base collection.
+pub struct MinterWorld {
+    pub app: App,
+    pub kind: MinterKind,
+    pub factory: Addr,
+    pub minter: Addr,
+    pub collection: Addr,
+    pub sg721_code_id: u64,
+    pub minter_code_id: u64,
+    pub factory_code_id: u64,
+    pub params: FParams,
+}
+
+/// `tweak` may adjust the default parameters / request before use.
+pub fn setup_minter_with(
+    kind: MinterKind,
+    tweak: impl FnOnce(&mut FParams, &mut CreateReq),
+) -> Result<MinterWorld, String> {
+    let mut app = chain::new_app();
+    let sg721_code_id = app.store_code(chain::sg721_base());
+    let minter_code_id = app.store_code(kind.code());
+    let fk = kind.factory();
+    let factory_code_id = app.store_code(fk.code());
+    let mut params = default_params(fk, minter_code_id, &[sg721_code_id]);
+    let mut req = CreateReq::standard(fk, sg721_code_id, &params.creation_fee);
+    tweak(&mut params, &mut req);
+    chain::mint_coins(&mut app, CREATOR, 1_000_000_000_000_000, NATIVE);
+    let factory = instantiate_factory(&mut app, fk, factory_code_id, &params)?;
+    let c = create_minter(&mut app, fk, &factory, CREATOR, &req)?;
+    Ok(MinterWorld {
+        app,
+        kind,
+        factory,
+        minter: c.minter,
+        collection: c.collection,
+        sg721_code_id,
+        minter_code_id,
+        factory_code_id,
+        params,
+    })
+}
+pub fn setup_minter(kind: MinterKind) -> MinterWorld {
+    setup_minter_with(kind, |_, _| {}).unwrap_or_else(|e| panic!("setup of {} through its factory failed: {}", kind.name(), e))
+}
+
+// ---------------------------------------------------------------- minter status
+
+pub fn sudo_update_status(app: &mut App, minter: &Addr, v: bool, b: bool, e: bool) -> Result<AppResponse, String> {
+    sudo_json(app, minter, &json!({ "update_status": { "is_verified": v, "is_blocked": b, "is_explicit": e } }))
+}
+pub fn q_status(app: &App, minter: &Addr) -> Result<(bool, bool, bool), String> {
+    let v = query_json(app, minter, &json!({ "status": {} }))?;
+    let s = v.get("status").ok_or_else(|| format!("bad answer {}", v))?;
+    let g = |k: &str| s.get(k).and_then(|x| x.as_bool()).ok_or_else(|| format!("bad answer {}", v));
+    Ok((g("is_verified")?, g("is_blocked")?, g("is_explicit")?))
+}
